@@ -262,7 +262,10 @@ SUB_INNER = ["UncertaintySampling(entropy)", "ProbabilisticAL", "RandomSampling"
              "QueryByCommittee(KL_divergence)", "MonteCarloEER(misclassification_loss)", "EpistemicUncertaintySampling",
              "ExpectedModelChangeMaximization", "Quire", "DiscriminativeAL", "GreedySamplingTarget(GSy)"]
 SAW_INNER = ["RandomSampling", "UncertaintySampling(entropy)", "ProbabilisticAL", "QueryByCommittee(vote_entropy)",
-             "EpistemicUncertaintySampling"]
+             "EpistemicUncertaintySampling",
+             # wrapped strategies whose picks are NOT the maximisers of the utilities they report (proportional
+             # sampling, batch loops of their own): the wrapper must follow the picks, not the utilities
+             "Falcun", "Badge", "CoreSet"]
 
 
 def main(tier="quick", seed=0):
